@@ -389,6 +389,64 @@ def case_contract_injective():
     return hx.explore_case(path, dict(max_paths=50000))
 
 
+def case_sequence(kind, first_status=None):
+    """two conversions one after the other in the same process: the second result must not depend on the first (module- or
+    class-level state such as a memo is part of the real code and is interpreted as such).  For contracts the first
+    contract's bid is tied to the second's (|difference| <= 1), only to keep the number of paths down."""
+    from bridge_env import Bid, Card, Contract, Player, Vul
+
+    def path(eng):
+        if kind == 'contract':
+            b1, b2, s2, v, d = z3.Ints('bid1 bid2 status2 vul declarer')
+            s1 = z3.IntVal(first_status)
+            eng.assume(z3.And(1 <= b1, b1 <= 35, 1 <= b2, b2 <= 35, b1 - b2 <= 1, b2 - b1 <= 1, 0 <= s2, s2 <= 2, 1 <= v, v <= 4, 1 <= d, d <= 4))
+            mk = lambda b, st: SObj(Contract, dict(final_bid=SEnum(Bid, b), x=SBool(st >= 1), xx=SBool(st == 2), vul=SEnum(Vul, v), declarer=SEnum(Player, d)))
+            cex = lambda m: {'kind': 'contract_seq', 'first': [hx.mval(m, b1), first_status], 'second': [hx.mval(m, b2), hx.mval(m, s2)],
+                             'vul': hx.mval(m, v), 'declarer': hx.mval(m, d)}
+            for b, st in ((b1, s1), (b2, s2)):
+                k, t = _call(eng, Contract.__str__, mk(b, st))
+                if k == 'raise':
+                    return dict(outcome='raise', checks=[('str(contract) does not raise', False)], cex=cex)
+                k, back = _call(eng, Contract.str_to_contract.__func__, Contract, t, SEnum(Vul, v), SEnum(Player, d))
+                if k == 'raise':
+                    return dict(outcome='raise', checks=[('str_to_contract does not raise', False)], cex=cex)
+            g = (lambda n: back.attrs[n]) if isinstance(back, SObj) else (lambda n: getattr(back, n))
+            stt = lambda X, XX: z3.If(XX, 2, z3.If(X, 1, 0))
+            return dict(outcome='second conversion', cex=cex,
+                        checks=[('the second contract text parses to the second contract, whatever was parsed before',
+                                 z3.And(zenum(g('final_bid')) == b2, stt(zbool(g('x')), zbool(g('xx'))) == s2, zenum(g('vul')) == v, zenum(g('declarer')) == d))])
+        if kind == 'bid':
+            b1, b2 = z3.Ints('call1 call2')
+            eng.assume(z3.And(1 <= b1, b1 <= 38, 1 <= b2, b2 <= 38))
+            cex = lambda m: {'kind': 'bid_seq', 'first': hx.mval(m, b1), 'second': hx.mval(m, b2)}
+            for b in (b1, b2):
+                k, t = _call(eng, Bid.__str__, SEnum(Bid, b))
+                if k == 'raise':
+                    return dict(outcome='raise', checks=[('str(call) does not raise', False)], cex=cex)
+                k, back = _call(eng, Bid.str_to_bid.__func__, Bid, t)
+                if k == 'raise':
+                    return dict(outcome='raise', checks=[('str_to_bid does not raise', False)], cex=cex)
+            return dict(outcome='second conversion', cex=cex, checks=[('the second call text parses to the second call', zenum(back) == b2)])
+        c1, d1, r1, s1_ = sym_card('1')
+        c2, d2, r2, s2_ = sym_card('2')
+        eng.assume(z3.And(d1, d2))
+        cex = lambda m: {'kind': 'card_seq', 'first': [hx.mval(m, r1), hx.mval(m, s1_)], 'second': [hx.mval(m, r2), hx.mval(m, s2_)]}
+        for c in (c1, c2):
+            k, t = _call(eng, Card.__str__, c)
+            if k == 'raise':
+                return dict(outcome='raise', checks=[('str(card) does not raise', False)], cex=cex)
+            k, back = _call(eng, Card.str_to_card.__func__, Card, t)
+            if k == 'raise':
+                return dict(outcome='raise', checks=[('str_to_card does not raise', False)], cex=cex)
+            k, i = _call(eng, Card.__int__, c)
+            k2, back_i = _call(eng, Card.int_to_card.__func__, Card, i) if k == 'ret' else ('raise', None)
+        chk = [('the second card text parses to the second card', same_card(back, r2, s2_))]
+        if k2 == 'ret':
+            chk.append(('the second card index converts back to the second card', same_card(back_i, r2, s2_)))
+        return dict(outcome='second conversion', cex=cex, checks=chk)
+    return hx.explore_case(path, dict(max_paths=50000))
+
+
 def cases(tier):
     cs = [(case_card_int, 'card<->index', {}), (case_int_card, 'index<->card (with out-of-range)', {}),
           (case_card_str, 'card<->text', {}), (case_card_str_injective, 'card text/index injective', {}),
@@ -401,6 +459,10 @@ def cases(tier):
           (case_contract, 'contract<->text', dict(passed_out=False)),
           (case_contract, 'passed-out contract<->text', dict(passed_out=True))]
     cs.append((case_bid_injective, 'call text/index injective', {}))
+    for st in (0, 1, 2):
+        cs.append((case_sequence, f'two contract conversions in sequence (first contract status {st})', dict(kind='contract', first_status=st)))
+    cs.append((case_sequence, 'two call conversions in sequence', dict(kind='bid')))
+    cs.append((case_sequence, 'two card conversions in sequence', dict(kind='card')))
     if tier == 'thorough':
         cs.append((case_contract_injective, 'contract text injective', {}))
     return cs
@@ -417,7 +479,7 @@ META = dict(
                  'a Contract with x=False, xx=True counts as redoubled (status, not dataclass equality, is compared)'],
     rule='feasible paths of the converter pairs over symbolic values; distinct = different path conditions',
     explanation='symbolic execution of both directions of every notation on one symbolic value; identity and injectivity are z3 queries per path',
-    required_outcomes=['card->int->card', 'int->card->int', 'int->card refused', 'card->str->card', 'call', 'seat',
+    required_outcomes=['second conversion', 'card->int->card', 'int->card->int', 'int->card refused', 'card->str->card', 'call', 'seat',
                        'vulnerability', 'contract', 'passed-out contract'],
 )
 
